@@ -389,6 +389,7 @@ func (b *BaseStore) Close() error {
 	emitters := []event.Emitter{
 		b.emitters.evtWrite, b.emitters.evtReady,
 		b.emitters.evtReplicateProgress, b.emitters.evtLoad,
+		b.emitters.evtLoadProgress,
 		b.emitters.evtReplicated, b.emitters.evtReplicate,
 	}
 	for _, emitter := range emitters {
@@ -396,6 +397,9 @@ func (b *BaseStore) Close() error {
 			b.logger.Warn("unable to close emitter", zap.Error(err))
 		}
 	}
+
+	// stop the goroutines serving the deprecated Subscribe/GlobalChannel API
+	b.UnsubscribeAll()
 
 	// Reset replication statistics
 	b.ReplicationStatus().Reset()
